@@ -16,6 +16,7 @@ import (
 
 	"verif/harness/data"
 	"verif/harness/proj"
+	"verif/harness/tlaval"
 )
 
 func init() { Recorders["expr"] = recordExpr }
@@ -136,6 +137,9 @@ func recordExpr(args []string) int {
 			fmt.Fprintln(os.Stderr, err)
 			return false
 		}
+		if rootIsRemainder(ev["tree"]) {
+			addWitness(ev)
+		}
 		evs = append(evs, ev)
 		return true
 	}
@@ -151,9 +155,6 @@ func recordExpr(args []string) int {
 		}
 		if !add(fmt.Sprint(e["text"]), desc, fmt.Sprint(e["site"])) {
 			return 2
-		}
-		if e["wit"] != nil {
-			addWitness(evs[len(evs)-1])
 		}
 	} else {
 		rng := rand.New(rand.NewSource(*seed))
@@ -184,9 +185,11 @@ func recordExpr(args []string) int {
 				if !add(text, map[string]any{}, site) {
 					return 2
 				}
-				if op == "%" {
-					addWitness(evs[len(evs)-1])
+			case "prog":
+				if !recordProg(rng, *n, add) {
+					return 2
 				}
+				i = *n
 			case "data":
 				// float64 / int64 / int data against arithmetic with literals
 				var desc map[string]any
@@ -287,8 +290,13 @@ func addWitness(ev map[string]any) {
 	if !ok {
 		return
 	}
+	desc, _ := ev["data"].(map[string]any)
 	val := func(x formula.Expression) *big.Rat {
-		t := ResolveTop(formula.NewRunner(), x)
+		run := formula.NewRunner()
+		if dm, err := data.BuildMap(desc, &HostLog{}); err == nil {
+			run.SetThis(dm)
+		}
+		t := ResolveTop(run, x)
 		d, ok := t.Root.(*decimal.Big)
 		if !ok || !t.RootOK || !d.IsFinite() {
 			return nil
@@ -313,4 +321,130 @@ func addWitness(ev map[string]any) {
 		ds = []any{}
 	}
 	ev["wit"] = []any{w.Sign() < 0, ds}
+}
+
+// ---- random programs (mode "prog"): grammar-directed, every operator, builtin and value kind
+
+var progDataDesc = mustParse(`[ i |-> <<"int", 2>>, j |-> <<"int", -7>>, f |-> <<"f64", FALSE, <<1,5>>, -1>>, d |-> <<"dec", FALSE, <<1,2,5>>, -2>>, z |-> <<"int", 0>>,
+  s |-> <<"str", <<97,98>>>>, e |-> <<"str", <<>>>>, w |-> <<"str", <<32,97,32>>>>, b |-> <<"bool", TRUE>>, nb |-> <<"bool", FALSE>>, nl |-> <<"nil">>, np |-> <<"nilptr">>,
+  m |-> <<"map", [k |-> <<"int", 1>>, s |-> <<"str", <<120>>>>, n |-> <<"nil">>, m |-> <<"map", [k |-> <<"int", 5>>]>>]>>, tm |-> <<"tmapint", [z |-> 0, o |-> 1]>>,
+  st |-> <<"struct", [A |-> <<"int", 1>>, B |-> <<"str", <<98>>>>, N |-> <<"nilptr">>], <<"c">>>>,
+  sl |-> <<"slice", <<<<"int", 1>>, <<"str", <<98>>>>, <<"nil">>>>>>, ss |-> <<"strs", <<<<97>>, <<98>>>>>>, t |-> <<"time", 19000, 3600000, 0>>,
+  rec |-> <<"func", "rec">>, fail |-> <<"func", "fail">>, failv |-> <<"func", "failv">>, add2 |-> <<"func", "add2">>, cat |-> <<"func", "cat">>, recs |-> <<"func", "recs">>,
+  nan |-> <<"f64nan">>, inf |-> <<"f64inf", FALSE>> ]`)
+
+var progNames = []string{"i", "j", "f", "d", "z", "s", "e", "w", "b", "nb", "nl", "np", "m", "tm", "st", "sl", "ss", "t", "nan", "inf", "undefined", "$a", "$b"}
+var progBinOps = []string{"+", "-", "*", "<", ">", "<=", ">=", "==", "!=", "===", "!==", "&", "|", "^", "&&", "||", "??", "+", "===", "&&", "||"}
+var progBuiltins = []struct {
+	name string
+	ar   int
+}{{"abs", 1}, {"ceil", 1}, {"floor", 1}, {"round", 1}, {"roundBank", 1}, {"max", 2}, {"min", 3}, {"finite", 1}, {"toInt", 1}, {"toFloat", 1}, {"toString", 1},
+	{"startWith", 2}, {"endWith", 2}, {"contains", 2}, {"find", 2}, {"left", 2}, {"right", 2}, {"mid", 3}, {"len", 1}, {"lower", 1}, {"upper", 1}, {"trim", 1},
+	{"replace", 3}, {"lpad", 3}, {"rpad", 3}, {"includes", 2}, {"join", 2}, {"regexp", 2}, {"date", 3}, {"year", 1}, {"month", 1}, {"day", 1}, {"weekDay", 1},
+	{"addDate", 4}, {"millSecond", 1}, {"timeFormat", 2}, {"rec", 1}, {"fail", 1}, {"failv", 1}, {"add2", 2}, {"cat", 2}, {"recs", 2}, {"mapToArr", 2}, {"roundCash", 2}}
+
+type progGen struct {
+	rng    *rand.Rand
+	divs   int
+	assign int
+}
+
+func (g *progGen) lit() string {
+	switch g.rng.Intn(9) {
+	case 0:
+		return strconv.Itoa(g.rng.Intn(10))
+	case 1:
+		return fmt.Sprintf("%d.%d", g.rng.Intn(100), g.rng.Intn(100))
+	case 2:
+		return []string{"'ab'", "''", "'a'", "'b'", "'x'", "' a '", "'2006-01-02'", "'ab|c'", "'^(a)*$'", "'UTC'"}[g.rng.Intn(10)]
+	case 3:
+		return []string{"true", "false", "null"}[g.rng.Intn(3)]
+	case 4:
+		return []string{"0.5", "2.5", "1e3", "0.1", "100"}[g.rng.Intn(5)]
+	default:
+		return progNames[g.rng.Intn(len(progNames))]
+	}
+}
+
+func (g *progGen) gen(depth int) string {
+	if depth <= 0 || g.rng.Intn(5) == 0 {
+		return g.lit()
+	}
+	sub := func() string { return g.gen(depth - 1) }
+	switch g.rng.Intn(14) {
+	case 0, 1, 2:
+		op := progBinOps[g.rng.Intn(len(progBinOps))]
+		return "(" + sub() + " " + op + " " + sub() + ")"
+	case 3:
+		if g.divs == 0 {
+			g.divs++
+			return "(" + sub() + " " + []string{"/", "%"}[g.rng.Intn(2)] + " " + g.lit() + ")"
+		}
+		return "(" + sub() + " * " + sub() + ")"
+	case 4:
+		return []string{"-", "!", "!!", "+", "~", "typeof "}[g.rng.Intn(6)] + "(" + sub() + ")"
+	case 5:
+		return "(" + sub() + " ? " + sub() + " : " + sub() + ")"
+	case 6:
+		g.assign++
+		return "(" + []string{"$a", "$b"}[g.rng.Intn(2)] + " = " + sub() + ")"
+	case 7:
+		return "(" + sub() + ", " + sub() + ")"
+	case 8:
+		n := g.rng.Intn(3)
+		parts := []string{}
+		for k := 0; k <= n; k++ {
+			parts = append(parts, sub())
+		}
+		return "[" + strings.Join(parts, ", ") + "]"
+	case 9:
+		base := []string{"m", "tm", "st", "np", "nl", "this", "m.m", "undefined", "s", "sl"}[g.rng.Intn(10)]
+		return base + []string{".", "!."}[g.rng.Intn(2)] + []string{"k", "s", "n", "z", "A", "B", "N", "q", "m"}[g.rng.Intn(9)]
+	default:
+		b := progBuiltins[g.rng.Intn(len(progBuiltins))]
+		ar := b.ar
+		if g.rng.Intn(6) == 0 {
+			ar += g.rng.Intn(3) - 1
+		}
+		args := []string{}
+		for k := 0; k < ar; k++ {
+			args = append(args, sub())
+		}
+		sp := ""
+		if g.rng.Intn(12) == 0 && ar > 0 {
+			sp = "..."
+		}
+		return b.name + "(" + strings.Join(args, ", ") + sp + ")"
+	}
+}
+
+func recordProg(rng *rand.Rand, n int, add func(text string, desc map[string]any, site string) bool) bool {
+	desc, _ := tlaval.AsMap(progDataDesc)
+	for i := 0; i < n; {
+		g := &progGen{rng: rng}
+		text := g.gen(2 + rng.Intn(3))
+		if len(text) > 400 {
+			continue
+		}
+		if _, err := formula.ParseSourceCode([]byte(text)); err != nil {
+			continue
+		}
+		head := text
+		if len(head) > 12 {
+			head = head[:12]
+		}
+		if !add(text, desc, "prog") {
+			return false
+		}
+		i++
+	}
+	return true
+}
+
+func rootIsRemainder(t any) bool {
+	tt, ok := t.([]any)
+	for ok && len(tt) == 2 && tt[0] == "Paren" {
+		tt, ok = tt[1].([]any)
+	}
+	return ok && len(tt) == 4 && tt[0] == "Bin" && tt[1] == "pct"
 }
